@@ -419,6 +419,10 @@ impl OsIpcSender {
             return Err(UnixError::Errno(libc::EMSGSIZE));
         }
 
+        // Our own handle of the receive end is only needed until the first fragment
+        // (which carries it to the receiver) has been sent.
+        let mut dedicated_rx = Some(dedicated_rx);
+
         // Split up the packet into fragments.
         let mut byte_position = 0;
         while byte_position < data.len() {
@@ -452,8 +456,16 @@ impl OsIpcSender {
                 }
             }
 
+            if byte_position == 0 {
+                // The receive end now travels with the first fragment.
+                // Keeping our copy open would keep the dedicated channel alive
+                // even after the receiver has gone away -- and a sender
+                // blocked on a full dedicated channel would never be told.
+                dedicated_rx = None;
+            }
             byte_position = end_byte_position;
         }
+        drop(dedicated_rx);
 
         Ok(())
     }
